@@ -93,6 +93,16 @@ Theorem converter_roundtrip :
 Proof. exact Proofs.C08.converter_roundtrip. Qed.
 Print Assumptions converter_roundtrip.
 
+(* the same from the key side, for keys of ANY magnitude (the model compares keys as integers,
+   never their decimal forms; digit counts and word sizes play no role) and even when keys
+   repeat: a key of the list maps to an index within 1..len that holds this very key — never
+   to 0, never to another member's key *)
+Theorem converter_key_maps_to_its_index :
+  forall keys k, (length keys < 256)%nat -> In k keys ->
+    1 <= sc_index keys k <= N.of_nat (length keys) /\ sc_key keys (sc_index keys k) = Some k.
+Proof. exact Proofs.C08.converter_key_of_index. Qed.
+Print Assumptions converter_key_maps_to_its_index.
+
 Theorem converter_panics_only_outside :
   forall keys i, (length keys < 256)%nat -> i < 256 ->
     (sc_key keys i = None <-> i = 0 \/ N.of_nat (length keys) < i).
@@ -159,7 +169,9 @@ Theorem spec_fsg_sound :
            /\ sc_key keys fi = Some (party_key (f_seed c) m)
            /\ sc_index keys (party_key (f_seed c) m) = fi
            /\ nth_error ops (N.to_nat (fi - 1)) = Some o
-           /\ nth_error (f_selected c) (N.to_nat (m - 1)) = Some o.
+           /\ nth_error (f_selected c) (N.to_nat (m - 1)) = Some o
+           (* and the REAL converter over the wallet's keys returned fi for seed + m *)
+           /\ In (m, fi) (combine (f_operating c) (f_conv c)).
 Proof. exact Proofs.C08.spec_fsg_sound. Qed.
 Print Assumptions spec_fsg_sound.
 
@@ -182,8 +194,12 @@ Print Assumptions spec_sign_sound.
 Theorem spec_conv_sound :
   forall c, spec_conv c = true -> NoDup (v_keys c) -> (length (v_keys c) < 256)%nat ->
     length (v_idx c) = length (v_idx_out c)
-    /\ forall i out, In (i, out) (combine (v_idx c) (v_idx_out c)) ->
-         1 <= i <= N.of_nat (length (v_keys c)) -> exists k, out = Some k /\ sc_index (v_keys c) k = i.
+    /\ (forall i out, In (i, out) (combine (v_idx c) (v_idx_out c)) ->
+         1 <= i <= N.of_nat (length (v_keys c)) -> exists k, out = Some k /\ sc_index (v_keys c) k = i)
+    (* the observed TssPartyIDToMemberIndex of a key of the list is an index holding that key *)
+    /\ length (v_key c) = length (v_key_out c)
+    /\ (forall k out, In (k, out) (combine (v_key c) (v_key_out c)) -> In k (v_keys c) ->
+         sc_key (v_keys c) out = Some k).
 Proof. exact Proofs.C08.spec_conv_sound. Qed.
 Print Assumptions spec_conv_sound.
 
@@ -194,7 +210,11 @@ Theorem spec_sprobe_sound :
          /\ m_sender m <> sp_self c /\ 1 <= m_sender m <= sp_size c /\ ~ In (m_sender m) (sp_dq c)
          /\ nth_error (sp_ops c) (N.to_nat (m_sender m - 1)) = Some (m_op m)
          /\ m_session m = sp_session c)
-    /\ (sp_size c <= N.of_nat (length (sp_keys c)) -> so_keys c <> None).
+    /\ (sp_size c <= N.of_nat (length (sp_keys c)) -> so_keys c <> None)
+    (* every party id the member built maps back (observed) to an index holding that key *)
+    /\ ((length (sp_keys c) < 256)%nat -> forall l, so_keys c = Some l ->
+          length l = length (so_index c)
+          /\ forall k i, In (k, i) (combine l (so_index c)) -> sc_key (sp_keys c) i = Some k).
 Proof. exact Proofs.C08.spec_sprobe_sound. Qed.
 Print Assumptions spec_sprobe_sound.
 
